@@ -52,4 +52,24 @@ theorem runK_keyOf (ops : List Op) : ∀ st : State, runK keyOf st ops = run st 
   | nil => intro _; rfl
   | cons op ops ih => intro st; simp only [runK, run, stepK_keyOf, ih]
 
+
+/-- Insertions commute (on any list), hence insertion sort does not depend on the order of its input. -/
+theorem insSorted_comm (x y : Nat) (s : List Nat) :
+    insSorted x (insSorted y s) = insSorted y (insSorted x s) := by
+  induction s with
+  | nil =>
+    simp only [insSorted]
+    split <;> split <;> first | rfl | (exfalso; omega) | (have hxy : x = y := (by omega)) <;> rw [hxy]
+  | cons z zs ih =>
+    simp only [insSorted]
+    split <;> split <;> simp only [insSorted] <;> (repeat' split) <;>
+      first | rfl | (exfalso; omega) | (have hxy : x = y := (by omega)) <;> rw [hxy] | (rw [ih])
+
+theorem sortNat_perm {l l' : List Nat} (h : l.Perm l') : sortNat l = sortNat l' := by
+  induction h with
+  | nil => rfl
+  | cons x _ ih => simp only [sortNat, List.foldr_cons] at ih ⊢; rw [ih]
+  | swap x y l => simp only [sortNat, List.foldr_cons]; exact insSorted_comm y x _
+  | trans _ _ ih1 ih2 => rw [ih1, ih2]
+
 end PydraModel.FileHash
